@@ -142,7 +142,7 @@ func ruleP17Rounding(p *Prog, r *Report) {
 		key := fmt.Sprintf("up:row#%d", i)
 		var cond *Guard
 		for j := range rw.guards {
-			if bo, ok := rw.guards[j].Cond.(*ssa.BinOp); ok && isRemainder(bo.X) {
+			if bo, ok := rw.guards[j].Cond.(*ssa.BinOp); ok && (isRemainder(bo.X) || isRemainder(bo.Y)) {
 				cond = &rw.guards[j]
 			}
 		}
@@ -155,10 +155,20 @@ func ruleP17Rounding(p *Prog, r *Report) {
 			continue
 		}
 		bo := cond.Cond.(*ssa.BinOp)
+		// normalise to remainder >= T (on edge pol): T <= remainder, remainder < T on the other edge
+		op, x, y, pol := bo.Op, bo.X, bo.Y, cond.Pol
+		if !isRemainder(x) {
+			x, y = y, x
+			op = map[token.Token]token.Token{token.LSS: token.GTR, token.GTR: token.LSS, token.LEQ: token.GEQ, token.GEQ: token.LEQ}[op]
+		}
+		if op == token.LSS {
+			op, pol = token.GEQ, !pol
+		}
+		_ = x
 		// threshold: v/2 + v%2 with >=   (i.e. ceil(v/2): remainders of exactly half round up)
 		okThr := false
-		if bo.Op == token.GEQ {
-			if th, ok := deref(bo.Y).(*ssa.BinOp); ok && th.Op == token.ADD {
+		if op == token.GEQ {
+			if th, ok := deref(y).(*ssa.BinOp); ok && th.Op == token.ADD {
 				q, ok1 := deref(th.X).(*ssa.BinOp)
 				m, ok2 := deref(th.Y).(*ssa.BinOp)
 				if ok1 && ok2 && q.Op == token.REM {
@@ -175,7 +185,7 @@ func ruleP17Rounding(p *Prog, r *Report) {
 			r.bad(rule, key+":threshold", pos, "the rounding threshold is not remainder >= v/2 + v%%2 (nearest multiple, ties up)")
 			continue
 		}
-		if cond.Pol {
+		if pol {
 			sawUp = true
 			r.check(rw.isV, rule, key+":up", pos, "remainder >= ceil(v/2) -> round up by v", "at or above half the step the time is not rounded up by exactly v")
 		} else {
